@@ -105,7 +105,7 @@ def generate(seed, tier, prop):
                                 # thorough tier only: a record longer than 2**24 rows (0.5 GB for a few seconds)
                                 ({"N": 2 ** 24 + 401, "dseed": P.s64(r), "nv": 1} if (prop == "C07" and tier == "thorough" and r.random() < 0.0006) else None)),
             # a callback of this run trains ANOTHER model to completion in the middle of the run (two fits interleaved)
-            "nested_fit": ({"at": r.randrange(1, max(2, total - 1)), "pseed": P.s64(r), "dseed": P.s64(r), "epochs": r.randint(1, 2)} if r.random() < 0.08 else None),
+            "nested_fit": ({"at": r.randrange(1, max(2, total - 1)), "pseed": P.s64(r), "dseed": P.s64(r), "epochs": r.randint(1, 2)} if (r.random() < 0.08 and not many_settings and N <= 300 and scfg["nv"] <= 4) else None),
             "observe_batching_only": many_settings,
             "second_fit": (r.random() < 0.3) and not many_settings,
             # what the caller does between the two training runs
@@ -496,10 +496,12 @@ def execute(plan, prop):
                             )
                     else:
                         # epoch cut short: sub-multiset
-                        pool = list(want)
+                        from collections import Counter as _Counter
+
+                        pool = _Counter(want)
                         for kx in got:
-                            if kx in pool:
-                                pool.remove(kx)
+                            if pool[kx] > 0:
+                                pool[kx] -= 1
                             else:
                                 run.violate("7-conserve", f"epoch {e} (cut short): pair {kx} used more often than it occurs in the data", N=N, pos_bs=tc["pos_bs"], with_bases=bases is not None)
                                 break
